@@ -324,6 +324,21 @@ theorem C07_minutes (c : Cfg) (hc : c.sites.Nodup) (i : Nat) (ds : List DayIn) (
 def exFuDup : Cfg :=
   { kind := .followup, crews := 1, cap := 1, sites := [1, 2], P := fun _ => { surveyTime := 600 } }
 
+/-! ### frame: a day touches only the sites it issues a request for or plans -/
+
+/-- the planner of a site that neither issues a request today nor is in today's work plan is left
+exactly as it was, whatever happens to the other sites (their number, outcomes, names) — the model
+has no state shared between planners or between histories -/
+theorem untouched_site_frame (c : Cfg) (d : DayIn) (s : State) (i : Nat)
+    (h1 : i ∉ issued c d.date s) (h2 : i ∉ planOf c d s) : (scheduleDay c d s).pl i = s.pl i := by
+  unfold planOf at h2
+  rw [dayTrace_keys] at h2
+  rw [scheduleDay_eq]
+  unfold finishDay deployed
+  simp only [h2, false_and, if_false]
+  unfold requestPhase
+  simp only [h1, if_false]
+
 /-! ### what `RunOK` assumes of the callers (F13) -/
 
 /-- `OpOK` without the callers' guarantee that a site is first-flagged only while it has no
